@@ -1,6 +1,7 @@
 import Rare.Drv.Expr
 import Rare.Model.C19Float
 import Rare.Model.C19F64Math
+import Rare.Model.C19Pool
 import Rare.Proofs.C19Lit
 /-!
 Driver ops of C19.
@@ -50,6 +51,11 @@ ONE compiled `{! …}` stage on several contexts in order (and, in the harness, 
 pooled wrapper objects of `kfMath` amount to is `kfmath_history_independent` /
 `kfmath_concurrent_independent` – so every value is computed from its context alone:
 `ok errs=… vals=v1,v2,…`.
+
+  look <formula hex>
+
+the look-ups `Eval` makes on the compiled formula, in order (`i:<n>` / `k:<namehex>`, `ok -` for none); the
+harness records them on the real code with a logging context (round 4b, `lookups_are_formula_variables`).
 
   docop <b|u> <operator hex>
 
@@ -161,6 +167,20 @@ def gramAns (fb : Bytes) : String :=
     let ok := match r with | .ok _ => true | .error _ => false
     if a != ok then "grammar-model-disagree" else if a then "ok accept" else "ok reject"
 
+def varStr : Pool.Var → String
+  | .named n => "k:" ++ Hex.enc n
+  | .idx i => "i:" ++ toString i
+
+/-- `look`: the look-ups of the compiled expression, in evaluation order; cross-checked on every case with the
+    variable occurrences of the ghost parse tree (`lookups_are_formula_variables` proves them equal). -/
+def lookAns (fb : Bytes) : String :=
+  match compile IEEE.arithT fb with
+  | .error e => errStr e
+  | .ok (t, e) =>
+    let vs := e.vars
+    if t.vars (classify IEEE.arithT) != vs then "vars-tree-vs-expr-disagree"
+    else if vs.isEmpty then "ok -" else "ok " ++ ",".intercalate (vs.map varStr)
+
 /-- The expression registry with `{! …}` bound to the IEEE instance (first entry wins). -/
 def registry : Rare.Expr.Registry :=
   Rare.Expr.mkRegistry (("!", IEEE.kfMath) :: Rare.Expr.stdTable) Gen.stdFunctionNames
@@ -232,6 +252,10 @@ def handle (args : List String) : String :=
     | some fb, some m, some k => xcheck (mathAns fb m k) (mathAnsN fb m k)
     | _, _, _ => "bad-args"
   | ["ref", _, _, _] => "ok agree"
+  | ["look", f] =>
+    match Hex.dec f with
+    | some fb => lookAns fb
+    | none => "bad-args"
   | ["tok", f] =>
     match Hex.dec f with
     | some fb =>
